@@ -1453,14 +1453,38 @@ func localBurstProbe(R *res.Result, prop string) {
 		var cmu sync.Mutex
 		var got []rng
 		var cwg sync.WaitGroup
+		// one caller asks for more than the logical part can hold: its request stays in the retry loop of getTS (50 ms
+		// per retry) and the others keep arriving while it is in flight - on a loaded machine, too
+		bigDone := make(chan struct{})
+		go func() {
+			defer close(bigDone)
+			for k := 0; k < 3; k++ {
+				_, err := am.HandleTSORequest("dc-1", 1<<18)
+				if err == nil {
+					R.Count("local-concurrent:oversized-request-answered")
+				}
+				time.Sleep(20 * time.Millisecond)
+			}
+		}()
 		for g := 0; g < 6; g++ {
 			cwg.Add(1)
 			go func(g int) {
 				defer cwg.Done()
-				for k := 0; k < 150; k++ {
+				for k := 0; ; k++ {
+					if k >= 150 {
+						select {
+						case <-bigDone:
+							return
+						default:
+						}
+						if k >= 3000 {
+							return
+						}
+					}
 					cnt := uint32(1 + (g+k)%5)
 					t, err := am.HandleTSORequest("dc-1", cnt)
 					if err != nil {
+						time.Sleep(time.Millisecond)
 						continue
 					}
 					cmu.Lock()
@@ -1470,6 +1494,7 @@ func localBurstProbe(R *res.Result, prop string) {
 			}(g)
 		}
 		cwg.Wait()
+		<-bigDone
 		R.CountN("local-concurrent:answers", len(got))
 		seenV := map[[2]int64]bool{}
 		sfx := int64(-1)
@@ -1587,9 +1612,16 @@ func prefill(admin *clientv3.Client, root string, n int) {
 		for k := base; k < base+100; k++ {
 			ops = append(ops, clientv3.OpPut(fmt.Sprintf("%s/raft/s/%020d", root, k), "x"))
 		}
-		ctx, cancel := context.WithTimeout(context.Background(), 10*time.Second)
-		_, err := admin.Txn(ctx).Then(ops...).Commit()
-		cancel()
+		var err error
+		for try := 0; try < 4; try++ { // puts are idempotent: an etcd that timed out on a loaded machine is asked again
+			ctx, cancel := context.WithTimeout(context.Background(), 10*time.Second)
+			_, err = admin.Txn(ctx).Then(ops...).Commit()
+			cancel()
+			if err == nil {
+				break
+			}
+			time.Sleep(500 * time.Millisecond)
+		}
 		if err != nil {
 			panic(err)
 		}
